@@ -3,6 +3,7 @@ open Vio
 (* case:  gpu <seq|par> <ngpu> <cap> <ndata> <delay> <batch> <cpu_direct> | task ; task ; ...
    task:  c | g<k>   then  <datum><r|w|x>[p] ...
    seq mode: the extracted model of the device layer (GPUDefs.grun), printed like harness/h_gpu.c
+   ptg mode: the same with PTG-like forwarding of the writer's output copy (GPUDefs.prun)
    par mode: the sequential reference (GPUDefs.ref_run) *)
 let parse_task ngpu s =
   match words s with
@@ -64,8 +65,9 @@ let () =
          let ngpu = int_of_string ngpu and cap = int_of_string cap and nd = int_of_string nd in
          let tasks = List.map (parse_task ngpu) (List.filter (fun s -> s <> "") (split_on ';' body)) in
          let nt = List.length tasks in
-         if mode = "seq" then begin
-           let (trs, ok) = grun (nat_of_int nd) (nat_of_int 2) (nat_of_int cap) (direct = "1") tasks in
+         if mode = "seq" || mode = "ptg" then begin
+           let (trs, ok) = if mode = "seq" then grun (nat_of_int nd) (nat_of_int 2) (nat_of_int cap) (direct = "1") tasks
+                           else prun (nat_of_int nd) (nat_of_int 2) (nat_of_int cap) tasks in
            let b = Buffer.create 1024 in
            List.iteri (fun i (tr : tres) ->
              let t = List.nth tasks i in
